@@ -415,23 +415,18 @@ func (s *tableSource) world(i int) *check.World {
 	}
 	return s.extra.world(i - gen.TableSize())
 }
-func (s *tableSource) exhaustive() bool { return s.extra == nil }
+func (s *tableSource) exhaustive() bool { return false }
 func (s *tableSource) describe() string {
 	d := fmt.Sprintf("all %d cells of the mode table CI x Update option x UPDATE_SNAPS x entry point x entry state x Clean x obsolete items, one two-lifetime world each (the cell runs as a fresh process with exactly that environment)", gen.TableSize())
-	if s.extra != nil {
-		d += "; followed by random histories drawn under all environments and Update options"
-	}
+	d += " (exhaustive: every cell is executed in both tiers); followed by random histories drawn under all environments and Update options"
 	return d
 }
 
 func newSource(prop string, seed uint64, tier string) source {
 	switch prop {
 	case "C05":
-		ts := &tableSource{seed: seed}
-		if tier == "thorough" {
-			ts.extra = &presetSource{prop: prop, seed: seed, free: gen.Preset(prop, false, nil), adv: gen.Preset(prop, true, nil)}
-		}
-		return ts
+		// the whole table first, then random histories under all environments and Update options
+		return &tableSource{seed: seed, extra: &presetSource{prop: prop, seed: seed, free: gen.Preset(prop, false, nil), adv: gen.Preset(prop, true, nil)}}
 	case "C01", "C02", "C03", "C04", "C06", "C07", "C08", "C09", "C10", "C17", "C19", "C20", "C12":
 		return &presetSource{prop: prop, seed: seed, free: gen.Preset(prop, false, nil), adv: gen.Preset(prop, true, nil)}
 	}
